@@ -1040,6 +1040,11 @@ class PDFType1Font(PDFSimpleFont):
                 firstchar = int_value(spec.get("FirstChar", 0))
                 for i, w in enumerate(list_value(spec["Widths"])):
                     widths[i + firstchar] = resolve1(w)
+            if "FontDescriptor" in spec:
+                # so does the MissingWidth of an explicit font descriptor
+                missing_width = dict_value(spec["FontDescriptor"]).get("MissingWidth")
+                if missing_width is not None:
+                    descriptor = dict(descriptor, MissingWidth=missing_width)
         except KeyError:
             descriptor = dict_value(spec.get("FontDescriptor", {}))
             firstchar = int_value(spec.get("FirstChar", 0))
